@@ -6,7 +6,7 @@ from fractions import Fraction
 import z3
 
 from .source import ClassInfo, ModuleInfo
-from .engine import (Obj, Func, BoundMethod, Builtin, Namespace, GenVal, SetVal, FmtStr, NDArr, SymSeq,
+from .engine import (Obj, Func, BoundMethod, Builtin, Namespace, GenVal, SetVal, FmtStr, NDArr, SymSeq, StarSeq,
                      Unsupported, PyExc, NotImplementedVal, BUILTIN_CLASSES, is_z3, z3_of, num_pair, is_number)
 
 
@@ -59,6 +59,9 @@ def isinstance_(I, v, t):
         # an Obj: extern classes may declare python base types
         return n in getattr(tv, 'pytypes', ())
     if isinstance(t, ClassInfo):
+        hook = getattr(t, 'instancecheck', None)
+        if hook is not None:
+            return hook(I, v)
         if isinstance(v, Obj):
             return I.world.issubclass(v.cls, t)
         if isinstance(v, NDArr):
@@ -137,10 +140,35 @@ def b_minmax(ismin):
     return f
 
 
+def sorted_symseq(I, seq, key, rev):
+    """Built-in contract of sorted() on a sequence of symbolic length: the result is seq o perm for a bijection
+    perm of [0,n) (with inverse inv) and its keys are non-decreasing."""
+    if rev:
+        raise Unsupported('sorted(reverse=True) on a symbolic sequence')
+    ctx = I.ctx
+    n = seq.length
+    perm = ctx.fresh_fn('perm', z3.IntSort(), z3.IntSort())
+    inv = ctx.fresh_fn('inv', z3.IntSort(), z3.IntSort())
+    S = SymSeq(n, lambda k: seq.at(perm(k)), name='sorted(%s)' % seq.name)
+    i, j = z3.Int('i!b'), z3.Int('j!b')
+    keyf = (lambda x: I.call(key, [x], {})) if key is not None else (lambda x: x)
+    ki, kj = keyf(S.at(i)), keyf(S.at(j))
+    if not (is_z3(ki) and (z3.is_real(ki) or z3.is_int(ki))):
+        raise Unsupported('sorted on symbolic sequence: non-numeric key')
+    ctx.assume_forall([i], z3.Implies(z3.And(0 <= i, i < n), z3.And(0 <= perm(i), perm(i) < n, inv(perm(i)) == i)), 'perm')
+    ctx.assume_forall([j], z3.Implies(z3.And(0 <= j, j < n), z3.And(0 <= inv(j), inv(j) < n, perm(inv(j)) == j)), 'inv')
+    ctx.assume_forall([i, j], z3.Implies(z3.And(0 <= i, i <= j, j < n), ki <= kj), 'sorted')
+    S.perm, S.inv, S.source = perm, inv, seq
+    ctx.ghost.setdefault('perms', []).append((perm, inv))
+    return S
+
+
 def b_sorted(I, args, kw):
-    items = list(I.iterate(args[0]))
     key = kw.get('key')
     rev = kw.get('reverse', False)
+    if isinstance(args[0], SymSeq):
+        return sorted_symseq(I, args[0], key, rev)
+    items = list(I.iterate(args[0]))
     keys = [I.call(key, [x], {}) if key is not None else x for x in items]
     if all(not is_z3(k) and not isinstance(k, Obj) for k in keys) and \
             all(not (isinstance(k, tuple) and any(is_z3(e) for e in k)) for k in keys):
@@ -195,10 +223,14 @@ def b_type(I, args, kw):
 
 
 def b_list(I, args, kw):
+    if args and isinstance(args[0], SymSeq):
+        return args[0]
     return list(I.iterate(args[0])) if args else []
 
 
 def b_tuple(I, args, kw):
+    if args and isinstance(args[0], SymSeq):
+        return args[0]
     return tuple(I.iterate(args[0])) if args else ()
 
 
@@ -222,6 +254,24 @@ def b_dict(I, args, kw):
 
 
 def b_zip(I, args, kw):
+    if len(args) == 1 and isinstance(args[0], StarSeq):
+        # zip(*seq) for a sequence of k-tuples of symbolic length n: [] if n == 0 else k sequences of length n
+        seq = args[0].seq
+        if I.ctx.branch(seq.length == 0):
+            return []
+        probe = seq.at(z3.IntVal(0))
+        if not isinstance(probe, tuple):
+            raise Unsupported('zip(*seq): elements are not tuples')
+        return [SymSeq(seq.length, (lambda c: (lambda k: seq.at(k)[c]))(c), name='%s.%d' % (seq.name, c))
+                for c in range(len(probe))]
+    if any(isinstance(a, SymSeq) for a in args):
+        if not all(isinstance(a, SymSeq) for a in args):
+            raise Unsupported('zip of symbolic and concrete sequences')
+        n = args[0].length
+        for a in args[1:]:
+            n = z3.If(a.length < n, a.length, n)
+        seqs = list(args)
+        return SymSeq(z3.simplify(n), lambda k: tuple(a.at(k) for a in seqs), name='zip')
     lists = [list(I.iterate(a)) for a in args]
     return [tuple(x) for x in zip(*lists)]
 
@@ -451,8 +501,25 @@ def make(world):
 # ----------------------------------------------------------------------------------------------
 # methods of builtin values
 
+def symseq_attr(I, v, name):
+    if name == 'append':
+        def f(I, a, k):
+            if v.origin != 'fresh':
+                I.ctx.effect('write', id(v), 'list', 'append')
+            v.append(a[0])
+        return Builtin('list.append', f)
+    if name == 'index':
+        h = getattr(I.world, 'symseq_index', None)
+        if h is None:
+            raise Unsupported('index() on a symbolic sequence without a contract')
+        return Builtin('list.index', lambda I, a, k: h(I, v, a[0]))
+    raise Unsupported('method %s of a symbolic sequence' % name)
+
+
 def value_attr(I, v, name):
     from .world import PyType
+    if isinstance(v, SymSeq):
+        return symseq_attr(I, v, name)
     if isinstance(v, PyType):
         if name == '__name__':
             return v.name
